@@ -1,5 +1,5 @@
 """C01 - signed digests equal the consensus sighash."""
-CONTRACT_MODULES = ['contracts.encoding', 'contracts.scripts', 'contracts.transactions']
+CONTRACT_MODULES = ['contracts.encoding', 'contracts.scripts', 'contracts.transactions', 'contracts.keys_sig']
 def _script_code():
     import contracts.transactions as t
     return list(t.SCRIPT_CODE_CASES)
@@ -11,7 +11,9 @@ CONTRACTS = (['bitcoinlib.transactions.Transaction.signature_segwit[in%d-out%d-s
              + ['bitcoinlib.transactions.Transaction.raw[legacy-anyindex-in%d-sign%d]' % (a, c) for a in (1, 2, 3) for c in range(a)]
              + ['bitcoinlib.transactions.Transaction.raw[legacy-any-count]', 'bitcoinlib.transactions.Transaction.raw[legacy-multisig-any-count]',
                 'bitcoinlib.transactions.Transaction.signature_segwit[any-count]']
-             + ['bitcoinlib.encoding.varstr', 'bitcoinlib.encoding.int_to_varbyteint'] + _script_code())
+             + ['bitcoinlib.encoding.varstr', 'bitcoinlib.encoding.int_to_varbyteint'] + _script_code()
+             # the digest that is CHECKED: Signature.verify / keys.verify use the digest handed to them, whatever digest the object remembered (shared with C02, C13)
+             + ['bitcoinlib.keys.Signature.verify[digest-given]', 'bitcoinlib.keys.verify[signature-object]'])
 LEVEL = 'proof'
 LEVEL_TEXT = ('Transaction.signature_segwit is verified against the BIP143 preimage (every hash-type byte) and Transaction.raw(sign_id, SIGHASH_ALL, '
               'legacy) against the legacy SIGHASH_ALL preimage, for every value of every field (ids, vouts, sequences, amounts up to 21e14, scripts of '
